@@ -106,6 +106,7 @@ static void stage_random(Run &R) {
     });
 }
 
+#ifndef VF_FUZZ
 int main(int argc, char **argv) {
     return std_main(argc, argv, "C09",
         {{"lengths", stage_lengths}, {"random", stage_random}},
@@ -118,3 +119,7 @@ int main(int argc, char **argv) {
         },
         [] { for (int m = 0; m < 4; m++) delete OBJ[m]; delete C; });
 }
+#else
+VF_FUZZ_TARGET("C09", [](Run &R) { C = new Consts(A); for (int m = 0; m < 4; m++) { OBJ[m] = new Obj(A); if (OBJ[m]->configure(m, 1, C->all_bits() & ~C->bit[SPECIAL]) != 0) return false; } (void) R; return true; },
+    [](Run &R, const uint8_t *d, size_t n) -> std::optional<Failure> { Bytes x = fuzz_bytes(d, n); if (x.empty()) return std::nullopt; R.sample("fuzz", show(x.substr(0, 80)), 4); return check_one(R, x); })
+#endif
